@@ -407,4 +407,131 @@ theorem mem_hashedNames {ps : Bytes} {icann : Bool} {host : Bytes} (hps : psOK p
         rw [mem_subdomains]
         exact ⟨hh, (isDotSuffixOrEq_iff _ _).mp hps.1⟩
 
+
+/-! ### how many names are hashed -/
+
+theorem length_subTail : ∀ d : Bytes, (subTail d).length = dots d
+  | [] => rfl
+  | b :: rest => by
+    unfold subTail
+    by_cases hb : b = dot
+    · subst hb; simp [length_subTail rest, dots_cons_dot]
+    · simp [hb, length_subTail rest, dots_cons_ne hb]
+
+theorem length_subdomains {d : Bytes} (h : d ≠ []) : (subdomains d).length = dots d + 1 := by
+  cases d with
+  | nil => exact absurd rfl h
+  | cons b rest => simp [subdomains, length_subTail]
+
+theorem length_takeWhile_subTail (P : Bytes) : ∀ d : Bytes, P ∈ subTail d →
+    ((subTail d).takeWhile (fun x => x ≠ P)).length + dots P + 1 = dots d
+  | [], h => by simp [subTail] at h
+  | b :: rest, h => by
+    unfold subTail at h ⊢
+    by_cases hb : b = dot
+    · subst hb
+      simp only [if_true] at h ⊢
+      rw [dots_cons_dot]
+      by_cases hP : rest = P
+      · subst hP; simp
+      · have h' : P ∈ subTail rest := by
+          rcases List.mem_cons.mp h with h | h
+          · exact absurd h.symm hP
+          · exact h
+        have ih := length_takeWhile_subTail P rest h'
+        have hdec : decide (rest ≠ P) = true := by simp [hP]
+        rw [List.takeWhile_cons, hdec]
+        simp only [if_true, List.length_cons]
+        omega
+    · simp only [hb, if_false] at h ⊢
+      rw [dots_cons_ne hb]
+      exact length_takeWhile_subTail P rest h
+
+theorem length_takeWhile_subdomains {P d : Bytes} (h : P ∈ subdomains d) :
+    ((subdomains d).takeWhile (fun x => x ≠ P)).length + dots P = dots d := by
+  cases d with
+  | nil => simp [subdomains] at h
+  | cons c cs =>
+    simp only [subdomains] at h ⊢
+    by_cases hd : c :: cs = P
+    · subst hd; simp
+    · have h' : P ∈ subTail (c :: cs) := by
+        rcases List.mem_cons.mp h with h | h
+        · exact absurd h.symm hd
+        · exact h
+      have := length_takeWhile_subTail P _ h'
+      have hdec : decide (c :: cs ≠ P) = true := by simp [hd]
+      rw [List.takeWhile_cons, hdec]
+      simp only [if_true, List.length_cons]
+      omega
+
+theorem dots_lastLabels (host : Bytes) : dots (lastLabels host) = min (dots host) 3 := by
+  obtain ⟨pre, h1, h2, h3⟩ := lastLabels_spec host
+  rcases h3 with h3 | ⟨⟨p', h3⟩, h4⟩
+  · have : host = lastLabels host := by rw [h3] at h1; simpa using h1
+    rw [← this] at h2 ⊢
+    omega
+  · have : dots host = dots p' + 1 + dots (lastLabels host) := by
+      conv => lhs; rw [h1, h3]
+      simp [dots]; omega
+    omega
+
+theorem length_hashedNames_le (ps : Bytes) (icann : Bool) (host : Bytes) :
+    (hashedNames ps icann host).length ≤ 4 := by
+  unfold hashedNames
+  simp only
+  refine Nat.le_trans (List.takeWhile_sublist _).length_le ?_
+  by_cases h : lastLabels host = []
+  · rw [h]; simp [subdomains]
+  · rw [length_subdomains h, dots_lastLabels]; omega
+
+theorem getLast_ne_dot_subTail : ∀ d : Bytes, d.getLast? ≠ some dot → [] ∉ subTail d
+  | [], _ => by simp [subTail]
+  | [b], h => by
+    have : b ≠ dot := by simpa using h
+    simp [subTail, this]
+  | b :: c :: rest, h => by
+    have h' : (c :: rest).getLast? ≠ some dot := by simpa [List.getLast?_cons_cons] using h
+    have ih := getLast_ne_dot_subTail (c :: rest) h'
+    unfold subTail
+    by_cases hb : b = dot
+    · simp only [hb, if_true, List.mem_cons, not_or]
+      exact ⟨by simp, ih⟩
+    · simp only [hb, if_false]; exact ih
+
+/-- **Exactly how many names are hashed**: the host is cut to its last four
+labels first, then the ICANN suffix (with all its labels) is left out. -/
+theorem length_hashedNames {ps : Bytes} {icann : Bool} {host : Bytes} (hps : psOK ps icann host = true)
+    (hne : host ≠ []) (hdot : host.getLast? ≠ some dot) :
+    (hashedNames ps icann host).length =
+      min (dots host + 1) 4 - (if icann then dots ps + 1 else 0) := by
+  have hll : lastLabels host ≠ [] := fun e => hne (lastLabels_eq_nil e)
+  unfold hashedNames
+  simp only
+  cases icann with
+  | false =>
+    simp only [Bool.false_eq_true, if_false]
+    -- the empty name does not occur: everything is hashed
+    have hnil : ([] : Bytes) ∉ subdomains (lastLabels host) := by
+      intro hmem
+      have := (mem_subdomains_lastLabels host []).mp hmem
+      rw [mem_subdomains] at this
+      rcases this.1.2 with e | ⟨pre, e⟩
+      · exact hne e.symm
+      · apply hdot; rw [e]; simp
+    rw [takeWhile_eq_self_of_all _ _ (by
+      intro x hx
+      simp only [ne_eq, decide_eq_true_eq]
+      rintro rfl; exact hnil hx)]
+    rw [length_subdomains hll, dots_lastLabels]; omega
+  | true =>
+    simp only [if_true]
+    simp only [psOK, Bool.not_true, Bool.false_or, Bool.and_eq_true, decide_eq_true_eq] at hps
+    have hmem : ps ∈ subdomains (lastLabels host) := by
+      rw [mem_subdomains_lastLabels, mem_subdomains]
+      exact ⟨⟨hne, (isDotSuffixOrEq_iff _ _).mp hps.1⟩, hps.2⟩
+    have := length_takeWhile_subdomains hmem
+    rw [dots_lastLabels] at this
+    omega
+
 end AGH.C19
